@@ -1,0 +1,16 @@
+//go:build verif
+
+package models
+
+// Contracts for the edge types used by the relay pagination (property C20).
+// Comment-only file: it is compiled only with -tags verif and contains no code.
+
+//@ func OperationEdge.GetCursor
+//@ func BugEdge.GetCursor
+//@ func CommentEdge.GetCursor
+//@ func TimelineItemEdge.GetCursor
+//@ func IdentityEdge.GetCursor
+//@ func LabelEdge.GetCursor
+//@   purefn
+//@   ensures result == e.Cursor
+//@   props C20
